@@ -28,7 +28,7 @@ Inductive op :=
 | OToInt (w:Z) (signed:bool) (m:rmode) (xflag:bool)
 | OLrint | OLround
 | OCmp | OOps | OHashEq | OHashSet
-| OParse | OFromStr | OFromStr2 | OFmt | OSerde
+| OParse | OFromStr | OFromStr2 | OFmt | OSerde | OSerdeDe | ONanTag | OMacro
 | OOpArith (o:op) | OOpNeg | OSum | OProduct
 | OConsts.
 
@@ -143,6 +143,36 @@ Definition expected (o:op) (md:rmode) (args:list Z) : expect :=
       | SExpJunk ol => Known KF_EXPJUNK (Pred is_default_qnan [0]) (Exact (map (fun oc => (fst oc, 0)) ol))
       end
   | OFmt, [x] => Exact (m_fmt x)
+  (* serde: Serialize writes the Display text as a JSON string; Deserialize is FromStr on the string's content.
+     outputs: [the JSON text as a number; 1; bits re-read]  (C05: "the same holds through the serde string representation") *)
+  | OSerde, [x] =>
+      let txt := m_format true (decode x) in
+      let js := str_num ([34] ++ txt ++ [34]) in
+      match m_parse RNE txt with
+      | SList ol => Exact (map (fun oc => (js :: fst oc, 0)) (fromstr_of ol))
+      | _ => Exact []
+      end
+  | OSerdeDe, l =>
+      let noerrflags := map (fun oc => match oc with ([0; _], f) => ([0; 0], f) | _ => oc end) in
+      match m_parse RNE l with
+      | SList ol => Exact (noerrflags (fromstr_of ol))
+      | SGarbage => Pred (fun outs => match outs with [1; r] => is_default_qnan [r] | _ => false end) [0]
+      | SSnanJunk _ => Pred (fun outs => match outs with [1; r] => is_any_nan0 [r] | _ => false end) [0]
+      | SExpJunk ol => Known KF_EXPJUNK (Pred (fun outs => match outs with [1; r] => is_default_qnan [r] | _ => false end) [0])
+                                        (Exact (noerrflags (fromstr_of ol)))
+      end
+  (* d128::nan(tag): "a quiet NaN" is all any property says (DESIGN 14): any pattern that decodes to a quiet NaN, with whatever
+     flags parsing the tag raised *)
+  | ONanTag, _ => Pred (fun outs => match outs with [r] => (0 <=? r) && (r <? P128) && match decode r with NaN _ false _ => true | _ => false end | _ => false end)
+                       [0; F_INX; F_INX + F_OVF; F_INX + F_UNF]
+  (* the public constants, as their doc comments name them: -1, 0, 1, NaN, -NaN, sNaN, -sNaN, Inf, -Inf, EPSILON = 1E-33,
+     MIN = 1E-6143, MAX = 9.99..9E+6144, default() = 0, RADIX, MANTISSA_DIGITS, MIN_EXP, MAX_EXP *)
+  | OConsts, [] =>
+      Exact [([encode (Fin true 1 0); encode (Fin false 0 0); encode (Fin false 1 0); encode (NaN false false 0); encode (NaN true false 0);
+               encode (NaN false true 0); encode (NaN true true 0); encode (Inf false); encode (Inf true); encode (Fin false 1 (-33));
+               encode (Fin false 1 (-6143)); encode (Fin false MAXC qmax); encode (Fin false 0 0); 10; 34; to_i32 (-6142); 6145], 0)]
+  (* dec128!(7920), dec128!(1E+3), dec128!(0.001) *)
+  | OMacro, [] => Exact [([encode (Fin false 7920 0); encode (Fin false 1 3); encode (Fin false 1 (-3))], 0)]
   | OOpArith o', [x; y] => Exact (repeat_out 5 (arith2 o' RNE x y))
   | OOpNeg, [x] => Exact (repeat_out 2 (m_neg x))
   | OSum, l => Exact (map (fun v => ([v; v], 0)) (fold_ops OAdd [ZERO_BITS] l))
